@@ -405,6 +405,130 @@ def run_stray(ctx, sh, case, rng):
         a.close()
 
 
+def run_pending(ctx, sh, case, rng):
+    """The id the counter wraps onto is held by a channel in state {pending: open sent, peer has not answered;
+    confirmed; peer-opened, not yet accepted by the application}.  The next open must get another id.  Decided from the
+    victim's tap: sender ids of its CHANNEL_OPEN / OPEN_CONFIRMATION messages among live-or-pending channels."""
+    from vf.attacker import Attacker
+    role = case["role"]  # attacker's role
+    a = Attacker(role=role, rng=rng)
+    sh.case = case
+    v = a.victim
+    keep, threads, errs = [], [], []
+    try:
+        if not a.start(auth=True):
+            ctx.inconclusive("attacker handshake failed (pending opens)")
+            return
+        a.takeover()
+        next_aid = [500]
+
+        def local_open(kind="session"):
+            """victim.open_channel in a thread; returns (thread, sender id seen on the wire)"""
+            mark = a.inbox_mark()
+            holder = {}
+
+            def run():
+                try:
+                    holder["chan"] = v.open_channel(kind, src_addr=("x", 1), timeout=60) if kind == "x11" else v.open_session(timeout=60)
+                    keep.append(holder["chan"])
+                except Exception as e:
+                    errs.append(repr(e))
+
+            th = threading.Thread(target=run, daemon=True)
+            th.start()
+            threads.append(th)
+            r = a.wait_inbox(lambda e: e["type"] == cm.OPEN, 20, mark)
+            return th, (cm.parse(bytes([cm.OPEN]) + r["payload"])["sender"] if r is not None else None)
+
+        def answer(vid):
+            next_aid[0] += 1
+            a.send(cm.OPEN_OK, vid, next_aid[0], 1 << 20, 32768)
+
+        def peer_open():
+            """attacker opens a channel on the victim (victim = server); returns the victim's id"""
+            next_aid[0] += 1
+            mark = a.inbox_mark()
+            a.send(cm.OPEN, "session", next_aid[0], 1 << 20, 32768)
+            r = a.wait_inbox(lambda e: e["type"] == cm.OPEN_OK, 20, mark)
+            return cm.parse(bytes([cm.OPEN_OK]) + r["payload"])["sender"] if r is not None else None
+
+        base = case["base"]
+        with v.lock:
+            v._channel_counter = base
+        occ = case["occupant"]
+        local_kind = "session" if role == "server" else "x11"
+        pending = []
+        if occ == "pending":
+            th, occ_id = local_open(local_kind)
+            pending.append(occ_id)
+        elif occ == "confirmed":
+            th, occ_id = local_open(local_kind)
+            if occ_id is not None:
+                answer(occ_id)
+                th.join(20)
+        else:  # peer-opened, never accepted by the application
+            occ_id = peer_open()
+        if occ_id is None:
+            ctx.inconclusive("occupant channel not established (pending opens)")
+            return
+        ctx.count("wrap_occupant_" + occ.replace("-", "_"))
+        # wrap: counter to the top of the id space, one answered open there, the next allocation comes back to `base`
+        with v.lock:
+            v._channel_counter = LIMIT - 1
+        if role == "server":
+            th, top = local_open(local_kind)
+            if top is not None:
+                answer(top)
+                th.join(20)
+        else:
+            top = peer_open()
+        if top == LIMIT - 1 and base == 0:
+            ctx.count("natural_wraps_onto_the_occupied_id")
+        with v.lock:
+            if v._channel_counter != base:
+                v._channel_counter = base  # (base != 0: put the counter onto the occupant directly)
+        # the open issued while the occupant holds the id
+        second = []
+        for k in range(case["more"]):
+            if case["second"] == "local":
+                th2, sid = local_open(local_kind)
+                pending.append(sid)
+            else:
+                sid = peer_open()
+            second.append(sid)
+            ctx.count("opens_issued_onto_an_occupied_id")
+        dup = [sid for sid in second if sid == occ_id]
+        if None in second:
+            ctx.inconclusive("open onto the occupied id was not observed on the wire")
+        if dup:
+            ctx.violation("channel id of a %s channel handed out again after the counter wrapped onto it" % occ,
+                          "the victim announced sender id %d for a new channel while the %s channel with that id is still "
+                          "live/pending" % (occ_id, occ), dict(case=case, occupant=occ_id, second=second))
+        elif second and None not in second:
+            ctx.count("wrap_onto_occupied_id_skipped")
+        # answer what is still pending: every open must complete
+        for sid in pending:
+            if sid is not None:
+                answer(sid)
+        for th in threads:
+            th.join(30)
+        alive = [th for th in threads if th.is_alive()]
+        if alive and not dup:
+            ok, st = cm.blocked_at_quiescence(alive, a.link, ctx.pick(10, 20))
+            if ok:
+                ctx.violation("open_channel never completed although the peer answered it",
+                              "an open is parked with the link drained after every CHANNEL_OPEN on the wire was confirmed",
+                              dict(case=case, stacks=st))
+            else:
+                ctx.inconclusive("an open did not complete (pending opens)")
+        pair.wait_for(lambda: a.link.quiescent(0.05), 5)
+        ctx.count("pending_open_cases")
+        return True
+    finally:
+        sh.case = None
+        a.close()
+
+
 def run_race(ctx, sh, rng, trials):
     """Deterministic yield injection for one race: the server's transport thread handles a peer CHANNEL_OPEN and is
     paused inside _next_channel right after ChannelMap.get() reported its candidate id free (before the counter
@@ -474,6 +598,14 @@ def run(ctx):
     ctx.guard(run_race, ctx, sh, rng, ctx.pick(6, 30))
     for i in range(ctx.pick(4, 24)):
         j = i * ctx.nshards + ctx.shard
+        role = ("server", "client")[j % 2]
+        occs = ("pending", "confirmed") if role == "server" else ("pending", "confirmed", "peer-opened-unaccepted")
+        case = dict(kind="wrap-onto-occupied-id", role=role, occupant=occs[j // 2 % len(occs)], base=(0, 0, 7)[j // 3 % 3],
+                    second=("local", "peer")[j // 4 % 2] if role == "client" else "local", more=1 + j // 8 % 2)
+        r = ctx.guard(run_pending, ctx, sh, case, rng)
+        ctx.case(("c23-pending", repr(case), i), sample=case if i == 0 else None, nontrivial=bool(r))
+    for i in range(ctx.pick(4, 24)):
+        j = i * ctx.nshards + ctx.shard
         case = dict(kind="stray-open-failure-for-established-channel", role=("client", "server")[j % 2], before=1 + j % 3,
                     target=j // 2, after=1 + j // 3 % 3, reason=1 + j % 4, start=(0, 5, LIMIT - 1, LIMIT - 2)[j // 2 % 4])
         r = ctx.guard(run_stray, ctx, sh, case, rng)
@@ -498,6 +630,9 @@ def run(ctx):
     ctx.require("releases_seen", 200)
     ctx.require("boundary_ids_registered", 20)
     ctx.require("race_trials", 30)
+    ctx.require("pending_open_cases", 24)
+    ctx.require("wrap_occupant_pending", 8)
+    ctx.require("wrap_onto_occupied_id_skipped", 24)
     ctx.require("stray_failure_cases", 24)
     ctx.require("data_delivered_after_stray_failure", 24)
     ctx.require("opens_after_stray_failure", 40)
